@@ -1723,18 +1723,22 @@ private:
             }
             case jsoncons::cbor::detail::cbor_major_type::semantic_tag:
             {
-                uint8_t b;
-                if (source_.read(&b, 1) == 0)
+                // the mantissa may only be a bignum: tag 2 or 3 (in any head width) on a byte string
+                uint64_t tag = read_uint64(ec);
+                if (JSONCONS_UNLIKELY(ec))
+                {
+                    return;
+                }
+                c = source_.peek();
+                if (JSONCONS_UNLIKELY(c.eof))
                 {
                     ec = cbor_errc::unexpected_eof;
                     more_ = false;
                     return;
                 }
-                uint8_t tag = get_additional_information_value(b);
-                c = source_.peek();
-                if (JSONCONS_UNLIKELY(c.eof))
+                if ((tag != 2 && tag != 3) || get_major_type(c.value) != jsoncons::cbor::detail::cbor_major_type::byte_string)
                 {
-                    ec = cbor_errc::unexpected_eof;
+                    ec = cbor_errc::invalid_decimal_fraction;
                     more_ = false;
                     return;
                 }
@@ -1883,19 +1887,23 @@ private:
             }
             case jsoncons::cbor::detail::cbor_major_type::semantic_tag:
             {
-                uint8_t b;
-                if (source_.read(&b, 1) == 0)
+                // the mantissa may only be a bignum: tag 2 or 3 (in any head width) on a byte string
+                uint64_t tag = read_uint64(ec);
+                if (JSONCONS_UNLIKELY(ec))
                 {
-                    ec = cbor_errc::unexpected_eof;
-                    more_ = false;
                     return;
                 }
-                uint8_t tag = get_additional_information_value(b);
 
                 c = source_.peek();
                 if (JSONCONS_UNLIKELY(c.eof))
                 {
                     ec = cbor_errc::unexpected_eof;
+                    more_ = false;
+                    return;
+                }
+                if ((tag != 2 && tag != 3) || get_major_type(c.value) != jsoncons::cbor::detail::cbor_major_type::byte_string)
+                {
+                    ec = cbor_errc::invalid_bigfloat;
                     more_ = false;
                     return;
                 }
